@@ -17,7 +17,7 @@ LEVEL = {"partial": ["floating-point rounding: results are compared to the exact
 ASSUMPTIONS = ["np.mean/median/var/std/quantile/sum/amin/amax/all/any as documented; statistics.mode returns the first encountered mode"]
 RULE = ("16 helpers x {float, int, bool, date, timedelta} columns drawn from exactly representable pools with NaN/NaT, x drop_na in {default, True, False}, "
         "ddof in {0,1,2}, index in -3..3, q in {0, 1/4, 1/2, 9/10, 1}; vector form on vectors of 0..8 elements and group-wise form on frames "
-        "of 0..12 rows with 1..4 groups incl. singleton and all-missing groups (USE_NUMBA off, and on for the Numba-eligible dtypes); non-trivial = >=2 elements with a tie or a "
+        "of 0..12 rows with 1..4 groups incl. singleton and all-missing groups (USE_NUMBA off, and on for the Numba-eligible dtypes: in the same process, and for first / last / nth / mode in one fresh interpreter per helper where that helper's kernel is compiled first); non-trivial = >=2 elements with a tie or a "
         "missing value (vector) / >=2 groups (group-wise); thorough adds all groups of <=4 values over a 4-value pool")
 
 HELPERS = ["all", "any", "count", "count_unique", "first", "last", "nth", "min", "max", "mode", "mean", "median", "quantile", "std", "var", "sum"]
@@ -129,6 +129,23 @@ def gen_cases(ctx):
     n = 800 if ctx.tier == "quick" else 20000
     for _ in range(n):
         cases.append(gen_case(rng, ctx.tier))
+    # the order-dependent helpers with USE_NUMBA on: each helper's group cases of this run (plus directed ones: several groups
+    # whose most common value sits at different positions, so that nothing carried over from one group can go unnoticed in
+    # the next) go to ONE fresh interpreter per helper, where that helper's kernel is the first one compiled
+    for h in ("mode", "first", "last", "nth"):
+        a = {"drop_na": None}
+        if h == "nth":
+            a["index"] = 1
+        items = [{"op": "group", "helper": h, "kind": "int", "args": dict(a), "vals": [1, 1, 2, 3, 5, 6, 7, 7, 4, 9, 9, 9], "g": [0, 0, 0, 0, 1, 1, 1, 1, 2, 2, 2, 2]},
+                 {"op": "group", "helper": h, "kind": "float", "args": dict(a), "vals": [2.5, 2.5, 1.0, 3.0, 3.0, 1.0, 4.0, 0.5, 0.5], "g": [0, 0, 0, 1, 1, 1, 2, 2, 2]},
+                 {"op": "group", "helper": h, "kind": "date", "args": dict(a), "vals": [5, 5, 1, 7, 8, 8, 2, 3, 3], "g": [1, 1, 1, 0, 0, 0, 2, 2, 2]}]
+        items += [dict(c) for c in cases if c["op"] == "group" and c["helper"] == h and c["kind"] in NUMBA_KINDS and not c.get("before")][:40 if ctx.tier == "quick" else 600]
+        while len(items) < (30 if ctx.tier == "quick" else 300):
+            c = gen_case(rng, ctx.tier, form="group")
+            if c["kind"] in NUMBA_KINDS and not c.get("before"):
+                c["helper"], c["args"] = h, dict(gen_args(rng, h))
+                items.append(c)
+        cases.append({"op": "numba_batch", "helper": h, "kind": "int", "args": {}, "vals": [], "items": items})
     if ctx.tier == "thorough":
         for helper in HELPERS:
             for ln in range(0, 5):
@@ -179,7 +196,34 @@ def canon_result(x):
 NUMBA_KINDS = ("float", "int", "bool", "date", "datetime")
 
 
+def numba_batch(case):
+    import json
+    import os
+    import shutil
+    import subprocess
+    import tempfile
+    env = dict(os.environ)
+    env["VERIF_REPO"] = common.REPO
+    env["PYTHONHASHSEED"] = "0"
+    env["VERIF_NO_LINE_RECORDING"] = "1"
+    env.pop("DATAITER_USE_NUMBA", None)
+    cache = tempfile.mkdtemp(prefix="verif-nbbatch-")
+    env["NUMBA_CACHE_DIR"] = cache
+    env["DATAITER_USE_NUMBA_CACHE"] = "false"
+    try:
+        r = subprocess.run(["/venv/bin/python", os.path.join(common.VERIF, "harness", "numba_batch.py")], input=json.dumps({"items": case["items"]}),
+                           env=env, stdout=subprocess.PIPE, stderr=subprocess.PIPE, text=True, timeout=1500)
+    finally:
+        shutil.rmtree(cache, ignore_errors=True)
+    line = [ln for ln in r.stdout.split("\n") if ln.startswith("RESULT ")]
+    if r.returncode != 0 or not line:
+        return {"crash": r.returncode, "stderr": r.stderr[-1500:]}
+    return {"batch": json.loads(line[0][7:])}
+
+
 def impl(case, use_numba=False):
+    if case["op"] == "numba_batch":
+        return numba_batch(case)
     import dataiter as di
     helper, kind = case["helper"], case["kind"]
     f = getattr(di, helper)
@@ -206,7 +250,7 @@ def impl(case, use_numba=False):
                 res["dtype"] = str(stat.y.dtype)
                 # the same call as a user with Numba installed runs it (acceleration is ON by default): the documented
                 # statistic either way.  Left out: the helpers whose kernels depend on the order of first compilation in one
-                # process (a recorded C08 finding) — they are compared in fresh processes by the C08 check
+                # process (a recorded C08 finding) — those run with Numba in a fresh interpreter per helper (`numba_batch`), and against the Python path in the C08 check
                 if not use_numba and kind in NUMBA_KINDS and helper not in ("first", "last", "nth", "mode") and not case.get("before"):
                     try:
                         with patch("dataiter.USE_NUMBA", True):
@@ -234,6 +278,8 @@ def drop_default(helper):
 
 
 def model_requests(case, obs):
+    if case["op"] == "numba_batch":
+        return []
     helper, kind, args = case["helper"], case["kind"], case["args"]
     a = {"helper": helper}
     dn = args.get("drop_na")
@@ -369,7 +415,38 @@ def groups_of(case):
     return ks, [[case["vals"][i] for i in range(len(case["g"])) if case["g"][i] == k] for k in ks]
 
 
+def judge_batch(ctx, case, obs):
+    helper = case["helper"]
+    ctx.count(f"numba_batch:{helper}")
+    if "batch" not in obs:
+        ctx.violation("oracle", f"{helper}:group:numba-crash", f"a fresh interpreter running di.{helper} group-wise with USE_NUMBA on ended with {obs.get('crash')}: {obs.get('stderr', '')[-400:]}", case, obs)
+        ctx.case_done(case, False)
+        return
+    for item, o in zip(case["items"], obs["batch"]):
+        kind, args = item["kind"], item["args"]
+        ctx.count("group:numba-on-fresh")
+        has_na = any(vecgen.is_na_val(kind, v) for v in item["vals"])
+        if helper == "mode" and has_na and not (drop_default(helper) if args.get("drop_na") is None else args.get("drop_na")):
+            continue
+        sub = dict(item, numba_fresh=True)
+        if "err" in o:
+            ctx.violation("oracle", f"{helper}:group:numba-raises", f"di.{helper} (group form, {kind}) raised with USE_NUMBA on in a fresh interpreter: {o['err']}", sub, o)
+            continue
+        ks, gs = groups_of(item)
+        if o.get("groups") != ks or len(o["out"]) != len(ks):
+            ctx.violation("oracle", f"{helper}:group:keys", "summary rows do not correspond to the groups (USE_NUMBA on)", sub, o)
+            continue
+        for k, g, got in zip(ks, gs, o["out"]):
+            exp = reference(helper, args, kind, g)
+            if not agrees(got, exp):
+                ctx.violation("oracle", f"{helper}:group:wrong-with-numba", f"group {k}: di.{helper} with USE_NUMBA on (fresh interpreter, this helper compiled first) gave {got!r}, textbook value {exp!r}", sub, o, repr(exp))
+                break
+    ctx.case_done(case, True)
+
+
 def judge(ctx, case, obs, mouts):
+    if case["op"] == "numba_batch":
+        return judge_batch(ctx, case, obs)
     helper, kind, args = case["helper"], case["kind"], case["args"]
     ctx.count(f"{case['op']}:{helper}")
     ctx.count("kind:" + kind)
